@@ -19,7 +19,7 @@ abbrev Str := List Nat
 abbrev Key := Option Nat × Option Nat     -- (reference parameter, path suffix); ids stand for the uuid hex strings
 
 inductive Outcome
-  | ok | httpError | refused | notConnected | timeout
+  | ok | httpError | refused | notConnected | timeout | parseError
 deriving DecidableEq, Repr
 
 inductive Dispatch
@@ -63,6 +63,12 @@ def init : State := ⟨[], 0, 0, []⟩
 
 def State.modeOf (st : State) (addr : Nat) : Outcome := (st.modes.lookup addr).getD .ok
 
+/-- what the transport does with the message for subscription `sub` posted to `addr` in the current op: the
+    environment may decide per delivery (`ov`; e.g. a soap client that is dead after a connection error, a
+    subscriber that answers garbage), otherwise the standing mode of the address applies -/
+def State.outcomeFor (st : State) (ov : List (Nat × Outcome)) (sub addr : Nat) : Outcome :=
+  (ov.lookup sub).getD (st.modeOf addr)
+
 inductive MsgKind
   | notification (action : Str)
   | subscriptionEnd
@@ -81,11 +87,11 @@ inductive Op
   | renew (k : Key) (expires : Option Nat)
   | getStatus (k : Key)
   | unsubscribe (k : Key)
-  | notify (action : Str)
+  | notify (action : Str) (ov : List (Nat × Outcome))
   | tick (dt : Nat)
   | setOutcome (addr : Nat) (o : Outcome)
   | housekeeping
-  | stop (sendEnd : Bool)
+  | stop (sendEnd : Bool) (ov : List (Nat × Outcome))
 deriving DecidableEq, Repr
 
 inductive Out
@@ -119,17 +125,17 @@ def hit (cfg : Cfg) (k : Key) (s : Sub) : Bool := cfg.mkKey s.id == k && s.unsub
 def State.find (cfg : Cfg) (st : State) (k : Key) : Option Sub := st.subs.find? (hit cfg k)
 
 /-- `send_notification_report` / `async_send_notification_report` of one subscription selected by `matches` -/
-def deliver (cfg : Cfg) (st : State) (a : Str) (s : Sub) : Sub × List Msg :=
+def deliver (cfg : Cfg) (st : State) (ov : List (Nat × Outcome)) (a : Str) (s : Sub) : Sub × List Msg :=
   if suffixMatch s.filter a && s.valid cfg st.now && s.unsubAt.isNone then
-    let o := st.modeOf s.notifyTo
+    let o := st.outcomeFor ov s.id s.notifyTo
     ({ s with errors := if o = .ok then 0 else s.errors + 1 }, [⟨.notification a, s.id, s.notifyTo, o⟩])
   else (s, [])
 
 /-- `send_notification_end_message` as called from `_end_all_subscriptions` -/
-def endMsg (cfg : Cfg) (st : State) (s : Sub) : List Msg :=
+def endMsg (cfg : Cfg) (st : State) (ov : List (Nat × Outcome)) (s : Sub) : List Msg :=
   if s.unsubAt.isNone && s.valid cfg st.now then
     let a := s.endTo.getD s.notifyTo
-    [⟨.subscriptionEnd, s.id, a, st.modeOf a⟩]
+    [⟨.subscriptionEnd, s.id, a, st.outcomeFor ov s.id a⟩]
   else []
 
 /-- the selection of `_do_housekeeping` -/
@@ -165,15 +171,15 @@ def step (cfg : Cfg) (st : State) : Op → State × Out
     | some _ =>
       ({ st with subs := st.subs.map (fun x => if hit cfg k x then { x with unsubAt := some st.now } else x) },
        .unsubscribed)
-  | .notify a =>
-    let r := st.subs.map (deliver cfg st a)
+  | .notify a ov =>
+    let r := st.subs.map (deliver cfg st ov a)
     ({ st with subs := r.map (·.1) }, .sent (r.flatMap (·.2)))
   | .tick dt => ({ st with now := st.now + dt }, .done)
   | .setOutcome addr o => ({ st with modes := (addr, o) :: st.modes }, .done)
   | .housekeeping =>
     ({ st with subs := st.subs.filter (fun s => !(obsolete cfg st.now s && !s.closed)) }, .done)
-  | .stop sendEnd =>
-    ({ st with subs := [] }, .sent (if sendEnd then st.subs.flatMap (endMsg cfg st) else []))
+  | .stop sendEnd ov =>
+    ({ st with subs := [] }, .sent (if sendEnd then st.subs.flatMap (endMsg cfg st ov) else []))
 
 /-- run an op list, collecting the outputs -/
 def run (cfg : Cfg) (st : State) : List Op → State × List Out
@@ -222,12 +228,12 @@ def Mon.step (cfg : Cfg) (m : Mon) : Op → Out → Mon
         if cfg.mkKey j = k then (m.recs j).map (fun x => { x with grantedAt := m.now, granted := r }) else m.recs j }
   | .unsubscribe k, .unsubscribed =>
     { m with recs := fun j => if cfg.mkKey j = k then (m.recs j).map (fun x => { x with unsub := true }) else m.recs j }
-  | .notify _, .sent msgs =>
+  | .notify _ _, .sent msgs =>
     { m with recs := fun j => (m.recs j).map (fun x =>
         match msgs.find? (fun msg => msg.sub == j) with
         | some msg => { x with failures := if msg.outcome = .ok then 0 else x.failures + 1 }
         | none => x) }
-  | .stop _, _ => { m with recs := fun j => (m.recs j).map (fun x => { x with ended := true }) }
+  | .stop _ _, _ => { m with recs := fun j => (m.recs j).map (fun x => { x with ended := true }) }
   | .tick dt, _ => { m with now := m.now + dt }
   | _, _ => m
 
